@@ -18,6 +18,7 @@ def register3(E):
     E.sbytes = sbytes
     def sref(b): return Ref([Str(b)], 0)
 
+    STR = r'^core::str::<impl str>::'; STR0 = STR
     # ---- tracing: modelled as disabled (no subscriber); spans and events are opaque no-ops
     @R(r'^<tracing::Level as PartialOrd<.*>>::(le|lt|ge|gt)$')
     def _(e, c, a): return False
@@ -59,7 +60,7 @@ def register3(E):
     def _(e, c, a): return len(deref(a[0]).items) == 0
     @R(r'^(std::collections::)?HashMap::<.*>::(iter|values|keys)$')
     def _(e, c, a):
-        hm = deref(a[0]); perms = list(itertools.permutations(range(len(hm.items)))); p = perms[e.choose(len(perms))]
+        hm = deref(a[0]); p = e.pick_order(len(hm.items))
         if c.endswith('iter'): return It('list', l=[Agg([HMKeyRef(hm, i), HMValRef(hm, i)], 'tup') for i in p], pos=0)
         if c.endswith('values'): return It('list', l=[HMValRef(hm, i) for i in p], pos=0)
         return It('list', l=[HMKeyRef(hm, i) for i in p], pos=0)
@@ -207,6 +208,81 @@ def register3(E):
     @R(r'Option::<.*>::ok_or::<|Option::<.*>::ok_or$')
     def _(e, c, a): return OK(a[0].f[0]) if a[0].v == 'Some' else ERR(a[1])
 
+    # ---- abstract characters: a str may be a list of tokens ('c', id, k, n) = k-th of the n UTF-8 bytes of abstract char `id`
+    def is_tok(b): return isinstance(b, tuple) and b and b[0] == 'c'
+    def str_chars(s):
+        """[(offset, char value, nbytes)] of a byte/token list; plain ASCII ints are 1-byte chars"""
+        out = []; i = 0
+        while i < len(s):
+            b = s[i]
+            if is_tok(b):
+                if b[2] != 0: raise EngineError('string starts inside a character')
+                out.append((i, CharM(b[1], b[3]), b[3])); i += b[3]
+            elif isinstance(b, int):
+                if b >= 0x80: raise EngineError('non-ASCII concrete byte in char iteration')
+                out.append((i, b, 1)); i += 1
+            else: raise EngineError('char iteration over symbolic bytes (use abstract characters)')
+        return out
+    def check_boundary(s, i):
+        if 0 < i < len(s) and is_tok(s[i]) and s[i][2] != 0: raise Panic(f'byte index {i} is not a char boundary')
+    E.check_boundary = check_boundary
+    @R(STR0 + r'char_indices$')
+    def _(e, c, a): return It('list', l=[Agg([o, ch], 'tup') for o, ch, _ in str_chars(sbytes(a[0]))], pos=0)
+    @R(STR0 + r'chars$')
+    def _(e, c, a): return It('list', l=[ch for o, ch, _ in str_chars(sbytes(a[0]))], pos=0)
+    @R(r'^(core::)?char::methods::<impl char>::len_utf8$|^char::len_utf8$')
+    def _(e, c, a): return a[0].n if isinstance(a[0], CharM) else 1
+    @R(STR0 + r'(trim_start_matches|trim_end_matches)::<')
+    def _(e, c, a):
+        s = sbytes(a[0]); chars = str_chars(s)
+        if 'trim_start' in c:
+            cut = len(s)
+            for o, ch, n in chars:
+                if not e.branch(e.closure_call(a[1], [ch])): cut = o; break
+            return sref(s[cut:])
+        cut = 0
+        for o, ch, n in reversed(chars):
+            if not e.branch(e.closure_call(a[1], [ch])): cut = o + n; break
+        return sref(s[:cut])
+    @R(STR0 + r'is_char_boundary$')
+    def _(e, c, a):
+        s = sbytes(a[0]); i = a[1]
+        return i == len(s) or (i < len(s) and not (is_tok(s[i]) and s[i][2] != 0))
+
+    # ---- integer method family (symbolic aware)
+    def isz(x): return z3.is_bv(x)
+    def ult(x, y): return z3.ULT(x, y) if (isz(x) or isz(y)) else x < y
+    INT = r'^core::num::<impl (usize|u8|u16|u32|u64)>::'
+    @R(INT + r'saturating_sub$')
+    def _(e, c, a):
+        x, y = a
+        if isinstance(x, int) and isinstance(y, int): return max(0, x - y)
+        return z3.If(ult(x, y), z3.BitVecVal(0, (x if isz(x) else y).size()), x - y)
+    @R(INT + r'(min|max)$')
+    def _(e, c, a):
+        x, y = a
+        if isinstance(x, int) and isinstance(y, int): return min(x, y) if c.endswith('min') else max(x, y)
+        return z3.If(ult(x, y), x, y) if c.endswith('min') else z3.If(ult(x, y), y, x)
+    @R(INT + r'checked_(sub|add)$')
+    def _(e, c, a):
+        x, y = a
+        if isinstance(x, int) and isinstance(y, int):
+            r = x - y if 'sub' in c else x + y
+            return SOME(r) if 0 <= r < (1 << 64) else NONE()
+        w = (x if isz(x) else y).size(); X = x if isz(x) else z3.BitVecVal(x, w); Y = y if isz(y) else z3.BitVecVal(y, w)
+        ok = z3.UGE(X, Y) if 'sub' in c else z3.BVAddNoOverflow(X, Y, False)
+        return SOME(X - Y if 'sub' in c else X + Y) if e.branch(ok) else NONE()
+    @R(INT + r'wrapping_(sub|add)$')
+    def _(e, c, a):
+        x, y = a
+        if isinstance(x, int) and isinstance(y, int): return (x - y if 'sub' in c else x + y) % (1 << 64)
+        return x - y if 'sub' in c else x + y
+    @R(r'^(std::cmp|core::cmp)::(max|min)::<(usize|u8|u32|u64)>$')
+    def _(e, c, a):
+        x, y = a
+        if isinstance(x, int) and isinstance(y, int): return min(x, y) if '::min::' in c else max(x, y)
+        return z3.If(ult(x, y), x, y) if '::min::' in c else z3.If(ult(x, y), y, x)
+
     # ---- ordering
     PRIM = r'(usize|u8|u16|u32|u64|u128|isize|i8|i16|i32|i64|i128|char|bool)'
     def prim_lt(ty, x, y):
@@ -273,7 +349,6 @@ def register3(E):
                 if x != y: return False
             else: cs.append(x == y)
         return True if not cs else (cs[0] if len(cs) == 1 else z3.And(*cs))
-    STR = r'^core::str::<impl str>::'
     @R(STR + r'strip_prefix::<(&str|char|&String|&&str)>$')
     def _(e, c, a):
         s, p = sbytes(a[0]), pat_bytes(a[1])
@@ -320,7 +395,7 @@ def register3(E):
     def _(e, c, a): return Vec(list(sbytes(a[0])), 'String')
     @R(STR + r'bytes$')
     def _(e, c, a): return It('list', l=list(sbytes(a[0])), pos=0)
-    @R(r'^\[&str\]::concat$|^core::slice::<impl \[&str\]>::concat::<str>$|^<\[&str\] as Concat<str>>::concat')
+    @R(r'^\[&str\]::concat$|^(core|std|alloc)::slice::<impl \[&str\]>::concat::<str>$|^<\[&str\] as Concat<str>>::concat')
     def _(e, c, a):
         out = []
         v = deref(a[0]); items = v.items() if isinstance(v, SliceRef) else (v.f if isinstance(v, Agg) else v.l)
@@ -352,3 +427,11 @@ class HMKeyRef(Ref):
     def __getitem__(self, k): return self.hm.items[self.i][0]
     def __setitem__(self, k, v): raise EngineError('write through a HashMap key reference')
     def get(self): return self.hm.items[self.i][0]
+
+class CharM:
+    """abstract character: identity + UTF-8 length; its display width is decided by the harness stub"""
+    __slots__ = ('id', 'n')
+    def __init__(self, id, n): self.id, self.n = id, n
+    def __repr__(self): return f"'ch{self.id}/{self.n}'"
+    def __eq__(self, o): return isinstance(o, CharM) and o.id == self.id
+    def __hash__(self): return hash(('CharM', self.id))
